@@ -22,6 +22,9 @@ Definition step_spec (c : cfgT) (w : wobs) (v : sview) : bool :=
   if negb (plain_env (v_env v)) then true else
   let f := wo_fs w in
   let m := layers_on_disk c f in
+  (* no installation to speak of (base directories or skeleton missing, layers unreadable):
+     every command fails before it looks at any layer *)
+  if negb (base_set_up c f && check_inheritance m) then true else
   let tab := ks_tab (wo_ks w) in
   let um := v_users v in
   let target_or_child_protected (n : bytes) (with_children : bool) :=
